@@ -36,7 +36,7 @@ V("C20", "save_xtc-omits-force", "mdtraj/core/trajectory.py",
 V("C20", "mdcrd-opens-r+b", "mdtraj/formats/mdcrd.py",
   'self._fh = open(filename, "wb")', 'self._fh = open(filename, "r+b")', "C20-R3", "MDCRDTrajectoryFile.__init__")
 V("C20", "xyz-seek-reopens-for-append", "mdtraj/formats/xyzfile.py",
-  "                self._fh = open(self._filename)", "                self._fh = open(self._filename, 'a+')", "C20-R4")
+  '                self._fh = open_maybe_zipped(self._filename, "r")', "                self._fh = open(self._filename, 'a+')", "C20-R4")
 V("C20", "xtc-unlink-unconditional", "mdtraj/formats/xtc/xtc.pyx",
   "            if force_overwrite and os.path.exists(filename):\n                os.unlink(filename)",
   "            if os.path.exists(filename):\n                os.unlink(filename)", "C20-R1", "XTCTrajectoryFile.__cinit__")
@@ -260,3 +260,35 @@ V("C19", "twin-merged-checks", "mdtraj/formats/dcd/dcd.pyx",
 """, """            if (cell_lengths is None) != (not self.with_unitcell):
                 raise ValueError("unit cell information must be given in all writes or in none")
 """, None)
+
+# ---------------------------------------------------------------- C18
+V("C18", "nc-whence1-assigns-offset", "mdtraj/formats/netcdf.py", "            self._frame_index = self._frame_index + offset", "            self._frame_index = offset",
+  "C18-R1", "NetCDFTrajectoryFile.seek")
+V("C18", "h5-whence2-forgets-offset", "mdtraj/formats/hdf5.py", "            self._frame_index = len(self._handle.root.coordinates) + offset",
+  "            self._frame_index = len(self._handle.root.coordinates)", "C18-R1", "HDF5TrajectoryFile.seek")
+V("C18", "dcd-relative-seek-treated-absolute", "mdtraj/formats/dcd/dcd.pyx", "        elif whence == 1 and offset >= 0:\n            advance = offset",
+  "        elif whence == 1 and offset >= 0:\n            advance = offset - current_pos", "C18-R1", "DCDTrajectoryFile.seek")
+V("C18", "xtc-invalid-args-accepted", "mdtraj/formats/xtc/xtc.pyx", "        else:\n            raise IOError('Invalid argument')\n\n        if absolute < 0 or absolute >= len(self.offsets):",
+  "        else:\n            absolute = 0\n\n        if absolute < 0 or absolute >= len(self.offsets):", "C18-R1", "XTCTrajectoryFile.seek")
+V("C18", "h5-position-plus-n", "mdtraj/formats/hdf5.py", "        self._frame_index += frame_slice.stop - frame_slice.start", "        self._frame_index += n_frames",
+  "C18-R2", "HDF5TrajectoryFile.read")
+V("C18", "nc-unbounded-again", "mdtraj/formats/netcdf.py", "        self._frame_index = frame_stop\n", "        self._frame_index = self._frame_index + min(n_frames, total_n_frames)\n",
+  "C18-R2", "NetCDFTrajectoryFile.read")
+V("C18", "mdcrd-increment-before-eof-check", "mdtraj/formats/mdcrd.py", '        "Read a single frame"\n        i = 0', '        "Read a single frame"\n        self._frame_index += 1\n        i = 0',
+  "C18-R3", "MDCRDTrajectoryFile._read")
+V("C18", "xyz-increment-before-parse", "mdtraj/formats/xyzfile.py", "        self._fh.readline()  # Comment line.\n        self._line_counter += 2",
+  "        self._fh.readline()  # Comment line.\n        self._line_counter += 2\n        self._frame_index += 1", "C18-R3", "XYZTrajectoryFile._read")
+V("C18", "xtc-counter-counts-failed-read", "mdtraj/formats/xtc/xtc.pyx", "            self.frame_counter += len(xyz)", "            self.frame_counter += n_read_frames",
+  "C18-R3", "XTCTrajectoryFile._read")
+V("C18", "lammps-reopen-forgets-frame-index", "mdtraj/formats/lammpstrj.py", "                self._fh = open(self._filename)\n                self._frame_index = 0\n",
+  "                self._fh = open(self._filename)\n", "C18-R4", "LAMMPSTrajectoryFile.seek")
+V("C18", "xyz-reopen-plain-open-again", "mdtraj/formats/xyzfile.py", '                self._fh = open_maybe_zipped(self._filename, "r")', "                self._fh = open(self._filename)",
+  "C18-R4", "XYZTrajectoryFile.seek")
+V("C18", "mdcrd-reopen-skips-no-header", "mdtraj/formats/mdcrd.py", '                self._fh = open(self._filename, "rb")\n                self._fh.readline()  # read comment\n',
+  '                self._fh = open(self._filename, "rb")\n', "C18-R4", "MDCRDTrajectoryFile.seek")
+V("C18", "xyz-frame-index-class-level", "mdtraj/formats/xyzfile.py", "        self._frame_index = 0\n        self._n_frames = None",
+  "        self._n_frames = None", "C18-R5", "XYZTrajectoryFile")
+V("C18", "xtc-len-scan-without-restore", "mdtraj/formats/xtc/xtc.pyx", "            finally:\n                xdrlib.xdr_seek(self.fh, old_pos, SEEK_SET)\n", "            finally:\n                pass\n",
+  "C18-R6", "XTCTrajectoryFile._calc_len_and_offsets")
+V("C18", "twin-plus-equals-rewritten", "mdtraj/formats/netcdf.py", "            self._frame_index = self._frame_index + offset", "            self._frame_index += offset", None)
+V("C18", "twin-commuted", "mdtraj/formats/hdf5.py", "            self._frame_index = self._frame_index + offset", "            self._frame_index = offset + self._frame_index", None)
